@@ -596,6 +596,7 @@ func c05(p *core.Program, r *core.Report) {
 
 	spellingRule(p, r, "spelling-variants", g)
 	ordinateFromStrconvRule(p, r, "ordinate-from-strconv")
+	nestingUnboundedRule(p, r, "nesting-depth-unbounded")
 
 	// ---- EMPTY members / offsets in the encoder
 	only := apiClosure(p, wktRel, "Encoder")
@@ -973,3 +974,128 @@ func reachesHandledMarshal(v ssa.Value, seen map[ssa.Value]bool, depth int) bool
 }
 
 var _ = packages.NeedName
+
+// nestingUnboundedRule (C05/C06): the WKT parser imposes no limit on the nesting of collections.
+func nestingUnboundedRule(p *core.Program, r *core.Report, rule string) {
+	r.Rule(rule, "the frame the WKT lexer pushes for each nested GEOMETRYCOLLECTION is always pushed: in every function of package wkt that stores a frame of the layout stack into the stack's storage (a field of its receiver), that store dominates every return (a push that can decline bounds the nesting, or loses the frame), and no function of the package compares the number of frames (len of the stack's storage, or an integer field of the stack) with a constant other than 0 and 1: the encoder recurses to any depth, so any such limit makes the library reject text it wrote", 2)
+	fns := pkgFuncs(p, wktRel)
+	// the stack type: the named struct of the package whose method set contains a method storing one of the
+	// package's struct values into a field of the receiver - found through the stores themselves
+	npush := 0
+	stackTypes := map[string]bool{}
+	for _, fn := range fns {
+		if fn.Signature.Recv() == nil || len(fn.Params) == 0 || len(fn.Blocks) == 0 {
+			continue
+		}
+		recv := fn.Params[0]
+		var grow []*ssa.Store
+		for _, b := range fn.Blocks {
+			for _, in := range b.Instrs {
+				st, ok := in.(*ssa.Store)
+				if !ok {
+					continue
+				}
+				// s.data = append(s.data, frame)   or   s.data[s.size] = frame
+				addr := st.Addr
+				viaIndex := false
+				if ia, isIA := addr.(*ssa.IndexAddr); isIA {
+					addr, viaIndex = ia.X, true
+					if ld, isLd := addr.(*ssa.UnOp); isLd && ld.Op == token.MUL {
+						addr = ld.X
+					}
+				}
+				base, path := fieldRoot(addr)
+				if base != ssa.Value(recv) || path == "" {
+					continue
+				}
+				isFrame := func(t types.Type) bool {
+					nt, isN := t.(*types.Named)
+					if !isN || nt.Obj().Pkg() == nil || nt.Obj().Pkg().Path() != mod+"/"+wktRel {
+						return false
+					}
+					_, isS := nt.Underlying().(*types.Struct)
+					return isS
+				}
+				frame := false
+				if viaIndex {
+					frame = isFrame(st.Val.Type())
+				} else if c, isC := st.Val.(*ssa.Call); isC && eng.BuiltinName(c) == "append" {
+					if sl, isSl := c.Type().Underlying().(*types.Slice); isSl {
+						frame = isFrame(sl.Elem())
+					}
+				}
+				if frame {
+					grow = append(grow, st)
+				}
+			}
+		}
+		if len(grow) == 0 {
+			continue
+		}
+		npush++
+		stackTypes[namedTypeName(derefType(recv.Type()))] = true
+		bad := ""
+		for _, b := range fn.Blocks {
+			ret, isRet := b.Instrs[len(b.Instrs)-1].(*ssa.Return)
+			if !isRet {
+				continue
+			}
+			dominated := false
+			for _, g := range grow {
+				if g.Block() == b || g.Block().Dominates(b) {
+					dominated = true
+				}
+			}
+			if !dominated {
+				bad = "the return at " + p.Pos(ret.Pos()) + " is reached without the frame having been stored: the push can decline"
+			}
+		}
+		r.Check(bad == "", rule, short(fn)+"/always-pushes", p.Pos(fn.Pos()), true, "the frame store dominates every return", bad)
+	}
+	if npush == 0 {
+		r.Lost(rule, wktRel+"/push", "no method of package wkt stores a frame into its receiver: the layout stack was not found")
+		return
+	}
+	// comparisons of the frame count with a constant
+	ncmp := 0
+	bad := ""
+	for _, fn := range fns {
+		for _, b := range fn.Blocks {
+			for _, in := range b.Instrs {
+				bo, ok := in.(*ssa.BinOp)
+				if !ok {
+					continue
+				}
+				switch bo.Op {
+				case token.EQL, token.NEQ, token.LSS, token.LEQ, token.GTR, token.GEQ:
+				default:
+					continue
+				}
+				for _, pair := range [][2]ssa.Value{{bo.X, bo.Y}, {bo.Y, bo.X}} {
+					k, isK := eng.ConstInt(pair[1])
+					if !isK {
+						continue
+					}
+					v := eng.StripConv(pair[0])
+					// len(<stack>.field) or <stack>.intfield
+					if lc, isLen := v.(*ssa.Call); isLen && (eng.BuiltinName(lc) == "len" || eng.BuiltinName(lc) == "cap") {
+						v = lc.Call.Args[0]
+					}
+					ld, isLd := v.(*ssa.UnOp)
+					if !isLd || ld.Op != token.MUL {
+						continue
+					}
+					fa, isFA := ld.X.(*ssa.FieldAddr)
+					if !isFA || !stackTypes[namedTypeName(derefType(fa.X.Type()))] {
+						continue
+					}
+					ncmp++
+					if k != 0 && k != 1 && bad == "" {
+						bad = fmt.Sprintf("%s compares the number of layout-stack frames with %d at %s: a nesting limit", short(fn), k, p.Pos(bo.Pos()))
+					}
+				}
+			}
+		}
+	}
+	r.Check(bad == "", rule, wktRel+"/frame-count-comparisons", "encoding/wkt/lex_stack.go", true, fmt.Sprintf("%d comparisons of the frame count, all with 0 or 1", ncmp), bad)
+}
